@@ -1233,6 +1233,14 @@ where
                                 runtime_types.insert(Some(atom!("Object")));
                             }
                         }
+                        // a type imported from another module, or a global / library type
+                        // that is not known here: nothing can be said about its values
+                        _ if ident.ctxt.has_mark(self.unresolved_mark)
+                            || self.imported.contains(&key) =>
+                        {
+                            runtime_types.insert(Some(Atom::from(UNKNOWN_TYPE)));
+                        }
+                        // (a class, an enum, ... declared in this file)
                         _ => {
                             runtime_types.insert(Some(atom!("Object")));
                         }
